@@ -754,6 +754,25 @@ var limitProgs = []limitProg{
 		      local ok, v = coroutine.resume(co)
 		      emit(coroutine.status(co))
 		      return ok, v`},
+	// a worker created inside another coroutine dies of the limit; its creator goes on working, creates and
+	// runs another coroutine (with a context attached the creator's derived context must survive the worker)
+	{name: "rec-resume-nested", kind: "call", co: true, want: func(n int) int { return n },
+		src: `local function rec(n) if n == 0 then return mark() end return 1 + rec(n - 1) end
+		      local outer = coroutine.wrap(function()
+		        local me = coroutine.running()
+		        local w = coroutine.create(function() return rec(N) end)
+		        local ok, v = coroutine.resume(w)
+		        local s = 0 for i = 1, 100 do s = s + i end
+		        if s ~= 5050 then return false, "the creator miscounted" end
+		        if coroutine.running() ~= me then return false, "running thread is wrong after resume" end
+		        if coroutine.status(w) ~= "dead" then return false, "status " .. coroutine.status(w) end
+		        local k = coroutine.wrap(function(a) local b = coroutine.yield(a + 1) return a + b end)
+		        if k(1) ~= 2 or k(5) ~= 6 then return false, "a coroutine made after the worker died misbehaves" end
+		        return ok, v
+		      end)
+		      local ok, v = outer()
+		      if coroutine.running() ~= nil then return false, "main thread is not running" end
+		      return ok, v`},
 	{name: "unpack", kind: "reg", want: func(n int) int { return n },
 		src: `local t = {} for i = 1, N do t[i] = i end
 		      return pcall(function() mark() return select('#', unpack(t, 1, N)) end)`},
@@ -1040,7 +1059,8 @@ func limitCfgs(kind, tier string) []Cfg {
 		for _, css := range []int{7, 16, 30, 300, 700} {
 			cs = append(cs, Cfg{CSS: css, Reg: 20000, Pkg: true})
 		}
-		return append(cs, Cfg{CSS: 30, Reg: 128, Max: 131072, Grow: 1, Min: true}, Cfg{CSS: 64, Reg: 128, Max: 131072, Grow: 32, Min: true, Ctx: true})
+		return append(cs, Cfg{CSS: 30, Reg: 128, Max: 131072, Grow: 1, Min: true}, Cfg{CSS: 64, Reg: 128, Max: 131072, Grow: 32, Min: true, Ctx: true},
+			Cfg{CSS: 17, Reg: 5120, Max: 0, Grow: 32, Min: false, Ctx: true, CtxMode: "bg"})
 	}
 	for _, reg := range []int{128, 5120} {
 		for _, min := range []bool{false, true} {
